@@ -64,9 +64,7 @@ fn run_case(_kind: &str, idx: u64, rng: &mut Rng, mon: &mut Mon, _tier: Tier) {
     let c = match ctor {
         0 => Constraints::new(from, to, 0.0),
         1 => {
-            let mut c = Constraints::new([0.0; 6], [1.0; 6], 0.0);
-            c.update_range(from, to);
-            c
+            crate::gen::via_update_range(rng, from, to, 0.0)
         }
         _ => {
             let r: [std::ops::RangeInclusive<f64>; 6] = std::array::from_fn(|j| from[j].to_degrees()..=to[j].to_degrees());
